@@ -16,6 +16,7 @@
 #include <cstdint>
 #include <boost/any.hpp>
 #include <memory>
+#include <exception>
 #include <type_traits>
 #include <sys/types.h>
 #include <sys/stat.h>
@@ -373,9 +374,29 @@ namespace CDNS {
          * @throw CborOutputException if initialization of the new output fails
          */
         void rotate_output(const boost::any& value) override {
-            close();
-            m_writer->rotate_output(value);
+            std::exception_ptr error;
+
+            // Finish the compressed stream of the current output. A failure is reported,
+            // but only after the new output is open and the compression is initialized again.
+            try {
+                finish();
+            }
+            catch (...) {
+                error = std::current_exception();
+            }
+
+            try {
+                m_writer->rotate_output(value);
+            }
+            catch (...) {
+                if (!error)
+                    error = std::current_exception();
+            }
+
             open();
+
+            if (error)
+                std::rethrow_exception(error);
         }
 
         private:
@@ -389,6 +410,13 @@ namespace CDNS {
          * @brief Close the opened output
          */
         void close() override;
+
+        /**
+         * @brief Finish the GZIP stream (write all remaining compressed data to output) and release it
+         * @throw CborOutputException if writing to output file descriptor fails
+         * @throw std::ios_base::failure if writing to output file fails
+         */
+        void finish();
 
         /**
          * @brief Compress data with GZIP and write them to output
@@ -444,9 +472,29 @@ namespace CDNS {
          * @throw CborOutputException if initialization of the new output fails
          */
         void rotate_output(const boost::any& value) override {
-            close();
-            m_writer->rotate_output(value);
+            std::exception_ptr error;
+
+            // Finish the compressed stream of the current output. A failure is reported,
+            // but only after the new output is open and the compression is initialized again.
+            try {
+                finish();
+            }
+            catch (...) {
+                error = std::current_exception();
+            }
+
+            try {
+                m_writer->rotate_output(value);
+            }
+            catch (...) {
+                if (!error)
+                    error = std::current_exception();
+            }
+
             open();
+
+            if (error)
+                std::rethrow_exception(error);
         }
 
         private:
@@ -460,6 +508,13 @@ namespace CDNS {
          * @brief Close the opened output
          */
         void close() override;
+
+        /**
+         * @brief Finish the LZMA stream (write all remaining compressed data to output) and release it
+         * @throw CborOutputException if writing to file descriptor fails
+         * @throw std::ios_base::failure if writing to output file fails
+         */
+        void finish();
 
         /**
          * @brief Compress data with LZMA2 and write them to output
